@@ -68,13 +68,14 @@ Proof. unfold is_probe, set_probe; cbn [p_meta with_meta]. rewrite slookup_sset_
 Lemma handlings_emit_nonprobe s e p l :
   is_probe p = false -> handlings (emit s e p :: l) = S (handlings l).
 Proof.
-  intros H. unfold handlings; cbn [filter emit m_data]. rewrite probe_marshal, H. reflexivity.
+  intros H. unfold handlings, is_marker; cbn [filter emit m_data m_sink]. rewrite probe_marshal, H.
+  destruct s; reflexivity.
 Qed.
 
-Lemma handlings_emit_probe s e p l :
-  is_probe p = true -> handlings (emit s e p :: l) = handlings l.
+Lemma handlings_emit_probe e p l :
+  is_probe p = true -> handlings (emit SPeer e p :: l) = handlings l.
 Proof.
-  intros H. unfold handlings; cbn [filter emit m_data]. rewrite probe_marshal, H. reflexivity.
+  intros H. unfold handlings, is_marker; cbn [filter emit m_data m_sink]. rewrite probe_marshal, H. reflexivity.
 Qed.
 
 Theorem route_exactly_once nd e p :
@@ -288,9 +289,25 @@ Section ProbeHop.
       unfold set_probe; cbn [with_meta p_meta]. rewrite slookup_sset_eq. reflexivity. }
     assert (Hnd : NoDup (skeys (marshal (set_probe p)))) by (apply marshal_NoDup; assumption).
     destruct (marshal (set_probe p)) as [|f0 fr] eqn:Em; [exact I|]. rewrite <- Em in *.
-    destruct (extract c' (key_fields c') (marshal (set_probe p)) _) as [p'|] eqn:Ex; [|exact I].
+    unfold ingest_raw.
+    destruct (extract c' (key_fields c') (marshal (set_probe p))
+                {| p_raw := marshal (set_probe p); p_memo := []; p_missing := []; p_meta := [] |}) as [p'|] eqn:Ex;
+      [|exact I].
     pose proof (extract_probe c' (key_fields c') _ _ p' Hnd Hin Ex) as Hp.
     rewrite (probes_reach_no_sink nd' e' (add_ua ua' p')); [reflexivity|].
     rewrite add_ua_probe. exact Hp.
   Qed.
 End ProbeHop.
+
+(* ---------- the decision structure of the source text (recomputed from route.go on every run) ---------- *)
+From Refinery Require Import Gen.GenC19.
+Definition source_shape_ok : bool :=
+  pe_probe_checked_before_trace_id && pe_untraced_goes_upstream && pe_stress_before_sharding &&
+  pe_peer_only_rewrites_apihost && pe_collector_by_listener &&
+  list_eqb String.eqb pe_event_field_writes ["ev.APIHost"%string] &&
+  list_eqb String.eqb pe_sink_calls
+    ["r.UpstreamTransmission.EnqueueEvent"; "r.Collector.ProcessSpanImmediately";
+     "r.PeerTransmission.EnqueueEvent"; "r.Collector.AddSpan"; "r.Collector.AddSpanFromPeer"]%string.
+
+Lemma source_shape_holds : source_shape_ok = true.
+Proof. vm_compute. reflexivity. Qed.
